@@ -387,3 +387,90 @@ pub fn layered_config(layers: &[usize], picks: &[u16]) -> ConfigSpec {
         ..Default::default()
     }
 }
+
+// ---------------------------------------------------------------------------
+// decoding of raw choices from fuzzer bytes (same case types as the strategies)
+
+pub mod decode {
+    use super::*;
+
+    pub struct Bytes<'a> {
+        data: &'a [u8],
+        pos: usize,
+    }
+    impl<'a> Bytes<'a> {
+        pub fn new(data: &'a [u8]) -> Self {
+            Bytes { data, pos: 0 }
+        }
+        pub fn u8(&mut self) -> u8 {
+            let v = self.data.get(self.pos).copied().unwrap_or(0);
+            self.pos += 1;
+            v
+        }
+        pub fn u16(&mut self) -> u16 {
+            (self.u8() as u16) << 8 | self.u8() as u16
+        }
+        pub fn u64(&mut self) -> u64 {
+            let mut v = 0u64;
+            for _ in 0..8 {
+                v = v << 8 | self.u8() as u64;
+            }
+            v
+        }
+        pub fn below(&mut self, n: usize) -> usize {
+            if n == 0 {
+                0
+            } else {
+                self.u8() as usize % n
+            }
+        }
+        pub fn exhausted(&self) -> bool {
+            self.pos >= self.data.len()
+        }
+        pub fn rest(&mut self) -> &'a [u8] {
+            let r = &self.data[self.pos.min(self.data.len())..];
+            self.pos = self.data.len();
+            r
+        }
+    }
+
+    pub fn raw_config(b: &mut Bytes, max_targets: usize, max_uses: usize, max_ignores: usize) -> RawConfig {
+        // sub-alphabet: 2..=4 distinct indices
+        let k = 2 + b.below(3);
+        let mut sub: Vec<usize> = vec![];
+        let mask = b.u8();
+        for i in 0..ALPHA.len() {
+            if mask >> i & 1 == 1 && sub.len() < k {
+                sub.push(i);
+            }
+        }
+        let mut i = 0;
+        while sub.len() < 2 {
+            if !sub.contains(&i) {
+                sub.push(i);
+            }
+            i += 1;
+        }
+        sub.sort();
+        let nt = 1 + b.below(max_targets);
+        let mut targets = vec![];
+        for _ in 0..nt {
+            let depth = 1 + b.below(UNIVERSE_DEPTH);
+            let path = (0..depth).map(|_| b.u16()).collect();
+            let key = b.u16();
+            let nu = b.below(max_uses + 1);
+            let uses = (0..nu).map(|_| (b.u8() % 9, b.u16(), b.u16())).collect();
+            let ni = b.below(max_ignores + 1);
+            let ignores = (0..ni).map(|_| (b.u8() % 7, b.u16(), b.u16())).collect();
+            targets.push(RawTarget { path, key, uses, ignores });
+        }
+        let perm = (0..max_targets).map(|_| b.u16()).collect();
+        let back_edge = if b.u8() & 1 == 1 { Some((b.u16(), b.u16())) } else { None };
+        RawConfig {
+            sub,
+            targets,
+            perm,
+            back_edge,
+        }
+    }
+}
